@@ -109,6 +109,25 @@ pub fn send_generated(c: &mut Case<'_>, op: &'static str, cfg: StackCfg, extra: 
 
 fn equality(c: &mut Case<'_>) -> CaseResult {
     let op = OPS[c.t.below(OPS.len())];
+    equality_op(c, op, None)
+}
+
+/// operations whose XML request document holds a list the API allows to be long (1000 keys / rules / tags ...,
+/// 10000 parts): the same equality, over documents of up to a few MiB
+const LARGE_DOC_OPS: &[&str] = &["DeleteObjects", "CompleteMultipartUpload", "PutBucketLifecycleConfiguration", "PutBucketCors", "PutBucketNotificationConfiguration", "PutBucketReplication", "PutBucketTagging", "PutObjectTagging", "PutBucketAnalyticsConfiguration", "PutBucketInventoryConfiguration"];
+
+fn large_document(c: &mut Case<'_>) -> CaseResult {
+    let op = *c.t.pick(LARGE_DOC_OPS);
+    let (n, pad) = if op == "CompleteMultipartUpload" {
+        (*c.t.pick(&[1000usize, 10_000, 3000]), *c.t.pick(&[0usize, 40]))
+    } else {
+        (*c.t.pick(&[1000usize, 300, 100]), *c.t.pick(&[900usize, 0, 400]))
+    };
+    c.label(format!("big:{n}x{pad}"));
+    equality_op(c, op, Some((n, pad)))
+}
+
+fn equality_op(c: &mut Case<'_>, op: &'static str, big: Option<(usize, usize)>) -> CaseResult {
     if model().ops.get(op).is_none() {
         return discard("operation not in the AWS model");
     }
@@ -118,7 +137,11 @@ fn equality(c: &mut Case<'_>) -> CaseResult {
         if grantee_ok {
             g.suppress.clear();
         }
+        g.big = big;
     })?;
+    if big.is_some() {
+        c.label(format!("wire-body:{}KiB", (sent.wire.body.len() / 1024).next_power_of_two()));
+    }
     let cfg = &sent.cfg;
     c.label(format!("op:{op}"));
     c.label(if cfg.via_proxy { "via-proxy" } else { "direct" });
@@ -380,6 +403,80 @@ fn rejection(c: &mut Case<'_>) -> CaseResult {
     Ok(())
 }
 
+thread_local! {
+    static SIGNED_ENV: crate::props::authenv::Env = crate::props::c05::auth_env();
+}
+
+/// A request whose SigV4 header signature and payload digest are right for the bytes that are sent, but whose declared
+/// Content-Length is another number (the length is not among the signed headers).  The transport hands the adapter the
+/// body as a stream of frames; "a buffered body whose length differs from the declared Content-Length yields a
+/// client error" - and with the declared length equal to the real one the same request is accepted (control).
+fn signed_length_mismatch(c: &mut Case<'_>) -> CaseResult {
+    use crate::props::authenv::{AK1, SK1, now_date16, run_req};
+    use crate::refimpl::sigv4::{Req, Signer, sha256_hex};
+    let bucket = crate::dto::gen_bucket_name(&mut c.t);
+    let key = format!("k{}", c.t.below(1000));
+    let tagging = "<Tagging xmlns=\"http://s3.amazonaws.com/doc/2006-03-01/\"><TagSet><Tag><Key>project</Key><Value>verif</Value></Tag></TagSet></Tagging>".as_bytes().to_vec();
+    let (op, path, query, body): (&str, String, Option<String>, Vec<u8>) = match c.t.below(4) {
+        0 => ("PutBucketTagging", format!("/{bucket}"), Some("tagging".into()), tagging),
+        1 => ("PutObjectTagging", format!("/{bucket}/{key}"), Some("tagging".into()), tagging),
+        2 => {
+            let n = 1 + c.t.len(300);
+            ("PutObject", format!("/{bucket}/{key}"), None, c.t.bytes(n))
+        }
+        _ => ("PutBucketVersioning", format!("/{bucket}"), Some("versioning".into()), b"<VersioningConfiguration xmlns=\"http://s3.amazonaws.com/doc/2006-03-01/\"><Status>Enabled</Status></VersioningConfiguration>".to_vec()),
+    };
+    let delta: i64 = match c.t.below(7) {
+        0 => 0,
+        1 => 1,
+        2 => -1,
+        3 => 2,
+        4 => -(1 + c.t.below(body.len().min(40)) as i64),
+        5 => 1 + c.t.below(4096) as i64,
+        _ => -(body.len() as i64),
+    };
+    let declared = (body.len() as i64 + delta).max(0) as usize;
+    let delta = declared as i64 - body.len() as i64;
+    let mut req = Req { method: "PUT".into(), path, query, headers: vec![("host".into(), "s3.example.test".into()), ("content-length".into(), declared.to_string())], body: body.clone() };
+    let signer = Signer { access_key: AK1.into(), secret: SK1.into(), region: "us-east-1".into(), service: "s3".into(), date16: now_date16(-2) };
+    signer.sign_header(&mut req, &sha256_hex(&body), &[]);
+    // frames: the whole body at once, or cut in two
+    let steps = if body.len() >= 2 && c.t.bool() {
+        let cut = 1 + c.t.below(body.len() - 1);
+        crate::wiretap::split_frames(&body, &[cut])
+    } else {
+        crate::wiretap::split_frames(&body, &[])
+    };
+    let with_hint = c.t.bool();
+    let hreq = req.to_http(s3s::Body::http_body(FrameBody::new(steps, with_hint))).map_err(crate::engine::Stop::Discard)?;
+    let (resp, calls) = SIGNED_ENV.with(|env| {
+        env.rec.take_calls();
+        let r = block_on(call_raw(&env.svc, hreq));
+        (r, env.rec.take_calls())
+    });
+    let _ = run_req;
+    c.nontrivial();
+    c.fp(&(op, body.len(), delta, with_hint));
+    c.label(format!("op:{op}"));
+    c.label(if delta == 0 { "declared-length-right" } else if delta > 0 { "declared-length-larger" } else { "declared-length-smaller" });
+    let (status, text) = match &resp {
+        Ok(w) => (w.status, w.body_text()),
+        Err(e) => (0, e.clone()),
+    };
+    c.set_sample(|| json!({"op": op, "body_len": body.len(), "declared": declared, "status": status, "request": req.render()}));
+    let names: Vec<&str> = calls.iter().map(|c| c.op).collect();
+    if delta == 0 {
+        if names != [op] {
+            return Err(c.fail(format!("input-rejected:{op}:signed"), format!("correctly signed {op} with its right length was not accepted: {status} {}\n{}", truncate(&text, 300), req.render())));
+        }
+        return Ok(());
+    }
+    if !calls.is_empty() || !(400..500).contains(&status) {
+        return Err(c.fail("accepted:signed-body-length-differs", format!("{op}: signed request declaring Content-Length {declared} and sending {} bytes (digest and signature right for the bytes sent) was not refused as a client error: status {status}, backend calls {names:?}\n{}", body.len(), req.render())));
+    }
+    Ok(())
+}
+
 pub fn run(r: &mut Runner) {
     r.rule = "equality: (operation, configuration, generated input) sent by aws-sdk-s3; the backend-observed input tree must equal the generated one (plus SDK-added wire members), streamed bytes equal. Non-trivial = >=5 members/leaves present or a string with a non-alphanumeric character; distinct by (op, input tree). rejection: one mutation (duplicate member, near-miss text, missing required, body length != Content-Length) of an accepted wire request; always non-trivial; distinct by (op, member, mutation).".into();
     r.assumptions = vec![
@@ -409,4 +506,6 @@ pub fn run(r: &mut Runner) {
     });
     r.search("equality", r.scale(40_000, 1_200_000), 2048, equality);
     r.search("rejection", r.scale(20_000, 600_000), 2048, rejection);
+    r.search("large-document", r.scale(160, 4_000), 2048, large_document);
+    r.search("signed-length-mismatch", r.scale(3_000, 100_000), 512, signed_length_mismatch);
 }
